@@ -180,7 +180,7 @@ func checkC19(r *Run) {
 	} else {
 		r.Bad("R3", "helpers/iterators vs plush", "summary shapes", "-", "the two shipped implementations have different structure")
 	}
-	c19Len(r)
+	c19LenSSA(r)
 }
 
 func c19Copy(r *Run, ic *iterCopy) []string {
